@@ -45,6 +45,10 @@ def main(argv: List[str]) -> int:
     w_, i_, fi_, c_, l_ = gh.items_null_contract(gh.DOTNET_REL, "has_null_base_type")
     if fi_ is not None:
         verify_helper_items(run, stats, w_, i_, [(fi_, c_, l_)])
+    from lib.helpers_verify import verify_report
+
+    wx, repx = gh.dotnet_extras_item()
+    verify_report(run, stats, wx, repx, f"{gh.DOTNET_HELPERS_REL}::generate_extras", "dotnet generate_extras emits a line that is no [Obsolete( / [Since( / [Direction( / [Proposed] attribute, or [Proposed] not exactly for proposed elements")
     _verify_generate_property(run, stats)
     tmp = gen.scratch()
     n = fails = 0
